@@ -13,7 +13,7 @@ import (
 	"github.com/trustbloc/sidetree-core-go/pkg/api/cas"
 	"github.com/trustbloc/sidetree-core-go/pkg/api/operation"
 	"github.com/trustbloc/sidetree-core-go/pkg/api/protocol"
-	"github.com/trustbloc/sidetree-core-go/pkg/docutil"
+	"github.com/trustbloc/sidetree-core-go/pkg/canonicalizer"
 	logfields "github.com/trustbloc/sidetree-core-go/pkg/internal/log"
 	"github.com/trustbloc/sidetree-core-go/pkg/versions/1_0/model"
 	"github.com/trustbloc/sidetree-core-go/pkg/versions/1_0/operationparser"
@@ -282,7 +282,9 @@ func (h *OperationHandler) createProvisionalIndexFile(chunks []string, provision
 }
 
 func (h *OperationHandler) writeModelToCAS(m interface{}, alias string) (string, error) {
-	bytes, err := docutil.MarshalCanonical(m)
+	// JCS: the files carry the deltas in the form in which intake measured them against the maximum delta size
+	// (a JSON writer that escapes HTML characters spells '<', '>' and '&' with six bytes each)
+	bytes, err := canonicalizer.MarshalCanonical(m)
 	if err != nil {
 		return "", fmt.Errorf("failed to marshal %s file: %s", alias, err.Error())
 	}
